@@ -83,4 +83,31 @@ def g_eval_disp(repo):
     return g
 
 
-GROUPS = {'exit': g_exit, 'eval': g_eval, 'eval_disp': g_eval_disp}
+def g_status(repo):
+    g = GroupBuild('status', repo)
+    g.raw('prelude_common.rs')
+    g.type(RULES + 'mod.rs', 'Status')
+    g.raw('spec_status.rs')
+    g.fn('U-and', RULES + 'mod.rs', 'and', impl=r'impl Status', spec='status_and.spec', wrap_impl='impl Status', props=['C04', 'C09'])
+    g.unit_meta['L-c04'] = dict(function='lemma_and_algebra, lemma_fold_is_all, lemma_same_elems_agg, lemma_perm_same_elems, lemma_dup_same_elems, lemma_c04_all, lemma_c04_dup, lemma_c04_alternatives, lemma_c04_lines, lemma_c04_dup_line, lemma_short_circuit',
+                                file='/verif/verus/spec_status.rs', clauses=dict(requires=0, ensures=22, invariant=0, decreases=1), props=['C04', 'C02', 'C09'], spec=None, lemma=True)
+    return g
+
+
+def g_merge(repo):
+    g = GroupBuild('merge', repo)
+    g.raw('prelude_common.rs')
+    g.raw('prelude_merge.rs')
+    PV = RULES + 'path_value.rs'
+    g.type(RULES + 'errors.rs', 'Error', derive=None, opaque_payloads='ExtError')
+    g.type(RULES + 'values.rs', 'RangeType', derive=None)
+    g.type(PV, 'Location', derive='Clone, Copy')
+    g.type(PV, 'Path', derive=None)
+    g.type(PV, 'MapValue', derive=None, extra_subst=[('indexmap::IndexMap<String, PathAwareValue>', 'IndexMapSV')])
+    g.type(PV, 'PathAwareValue', derive=None)
+    g.fn(None, PV, 'extend_str', impl=r'impl Path', stub=True, wrap_impl='impl Path')
+    g.fn('U-merge', PV, 'merge', impl=r'impl PathAwareValue', spec='merge.spec', wrap_impl='impl PathAwareValue', props=['C17'])
+    return g
+
+
+GROUPS = {'merge': g_merge, 'status': g_status, 'exit': g_exit, 'eval': g_eval, 'eval_disp': g_eval_disp}
